@@ -5,8 +5,9 @@ Engine E: in-memory file system with a durability model and crash enumeration
 Seams (harness side only, nothing in ioflo is edited):
 
     fs = VFS()
-    with installed(fs):          # ioflo.base.logging.ocfn / .os / .datetime replaced
-        ... drive a real Logger / Log ...
+    with installed(fs):          # ioflo.base.logging.os / .datetime replaced; the real
+        ...                      # filing.ocfn runs over filing.os.open/fdopen + filing.open shims
+        ... drive a real Logger / Log ...   (installed(fs, real_ocfn=False): logging.ocfn = fs.ocfn)
 
 Three levels of file data, as for a real buffered Python file on a POSIX system:
 
@@ -48,8 +49,10 @@ _FDCOUNT = itertools.count(3)
 
 
 class _Fd(int):
-    """An int file descriptor that knows its VFile."""
+    """An int file descriptor that knows its VFile (or, between os.open and os.fdopen,
+    its (path, inode))."""
     vfile = None
+    raw = None
 
 
 class VfsUnsupported(Exception):
@@ -72,7 +75,7 @@ class VFile:
     """File object returned by VFS.ocfn/open: the subset of io.TextIOWrapper that
     ioflo.base.logging.Log and its unit tests use."""
 
-    def __init__(self, fs, path, inode, mode):
+    def __init__(self, fs, path, inode, mode, fd=None):
         self._fs = fs
         self.name = path
         self.mode = mode
@@ -80,7 +83,7 @@ class VFile:
         self._buf = []                 # user-space write buffer (chunks)
         self._pos = 0                  # read position
         self.closed = False
-        self._fd = fs._newfd(self)
+        self._fd = fs._newfd(self, fd)
         plus = "+" in mode
         self._readable = mode.startswith("r") or plus
         self._writable = (not mode.startswith("r")) or plus
@@ -344,6 +347,48 @@ class _OsShim:
     def getcwd(self):
         return ROOT
 
+    # ---- low level open, as used by the real ioflo.aid.filing.ocfn
+    O_TRUNC, O_APPEND, O_RDONLY, O_WRONLY = _os.O_TRUNC, _os.O_APPEND, _os.O_RDONLY, _os.O_WRONLY
+
+    def open(self, path, flags, mode=0o777):
+        fs = self._fs
+        p = fs._norm(path)
+        if p in fs.dirs:
+            raise IsADirectoryError(errno.EISDIR, _os.strerror(errno.EISDIR), path)
+        inode = fs.files.get(p)
+        if inode is not None:
+            if flags & _os.O_CREAT and flags & _os.O_EXCL:
+                raise FileExistsError(errno.EEXIST, _os.strerror(errno.EEXIST), path)
+            if flags & _os.O_TRUNC:
+                lost = len(inode.os_view())
+                inode.durable = ""
+                inode.cache = []
+                fs._op("truncate", p, 0, ino=inode.ino, lost=lost)
+        else:
+            if not flags & _os.O_CREAT:
+                raise FileNotFoundError(errno.ENOENT, _os.strerror(errno.ENOENT), path)
+            if _os.path.dirname(p) not in fs.dirs:
+                raise FileNotFoundError(errno.ENOENT, _os.strerror(errno.ENOENT), path)
+            inode = Inode(fs._nextino)
+            fs._nextino += 1
+            fs.files[p] = inode
+            fs._op("create", p, ino=inode.ino)
+        fd = _Fd(next(_FDCOUNT))
+        fd.raw = (p, inode)
+        return fd
+
+    def fdopen(self, fd, mode="r", *a, **kw):
+        raw = getattr(fd, "raw", None)
+        if raw is None:
+            raise OSError(errno.EBADF, _os.strerror(errno.EBADF))
+        if "b" in mode:
+            raise VfsUnsupported("binary files")
+        p, inode = raw
+        # the descriptor is already open: 'w+' here does NOT truncate (as os.fdopen)
+        f = VFile(self._fs, p, inode, mode, fd=fd)
+        fd.raw = None
+        return f
+
     def __getattr__(self, name):
         raise VfsUnsupported("os.%s is not shimmed by mc.vfs" % name)
 
@@ -373,8 +418,9 @@ class VFS:
             path = _os.path.join(ROOT, path)
         return _os.path.normpath(path)
 
-    def _newfd(self, f):
-        fd = _Fd(next(_FDCOUNT))
+    def _newfd(self, f, fd=None):
+        if fd is None:
+            fd = _Fd(next(_FDCOUNT))
         fd.vfile = f
         self._fds[fd] = f
         return fd
@@ -546,31 +592,46 @@ class FakeDatetimeModule:
         raise VfsUnsupported("datetime.%s is not shimmed by mc.vfs" % name)
 
 
-@contextlib.contextmanager
-def installed(fs, fixed_now=None):
-    """Point ioflo.base.logging at the in-memory file system (core.use_repo() first)."""
+def _patch(fs, fixed_now=None, real_ocfn=True):
+    """Point ioflo.base.logging (and the ocfn it uses) at the in-memory file system.
+    real_ocfn=True: ioflo.aid.filing.ocfn itself keeps running, over shimmed
+    filing.os.open / filing.os.fdopen / filing.open; False: logging.ocfn = fs.ocfn."""
     from ioflo.base import logging as iologging
-    saved = (iologging.ocfn, iologging.os, iologging.datetime)
-    iologging.ocfn = fs.ocfn
+    from ioflo.aid import filing
+    missing = object()
+    saved = (iologging.ocfn, iologging.os, iologging.datetime, filing.os,
+             filing.__dict__.get("open", missing))
     iologging.os = fs.os
     iologging.datetime = FakeDatetimeModule(fixed_now)
+    if real_ocfn:
+        iologging.ocfn = filing.ocfn
+        filing.os = fs.os
+        filing.open = fs.open
+    else:
+        iologging.ocfn = fs.ocfn
+
+    def undo():
+        iologging.ocfn, iologging.os, iologging.datetime, filing.os = saved[:4]
+        if saved[4] is missing:
+            filing.__dict__.pop("open", None)
+        else:
+            filing.open = saved[4]
+    return undo
+
+
+@contextlib.contextmanager
+def installed(fs, fixed_now=None, real_ocfn=True):
+    """Context manager form (core.use_repo() first)."""
+    undo = _patch(fs, fixed_now, real_ocfn)
     try:
         yield fs
     finally:
-        iologging.ocfn, iologging.os, iologging.datetime = saved
+        undo()
 
 
-def install(fs, fixed_now=None):
+def install(fs, fixed_now=None, real_ocfn=True):
     """Non-context variant for long-lived workers; returns an undo function."""
-    from ioflo.base import logging as iologging
-    saved = (iologging.ocfn, iologging.os, iologging.datetime)
-    iologging.ocfn = fs.ocfn
-    iologging.os = fs.os
-    iologging.datetime = FakeDatetimeModule(fixed_now)
-
-    def undo():
-        iologging.ocfn, iologging.os, iologging.datetime = saved
-    return undo
+    return _patch(fs, fixed_now, real_ocfn)
 
 
 # --------------------------------------------------------------------------- logger world
@@ -697,6 +758,19 @@ def selftest():
     except OSError as ex:
         assert ex.errno == errno.ENOENT
     assert fs.os.listdir("/vfs/d/e") == ["a.txt", "a01.txt"]
+    try:
+        fs.os.open("/vfs/d/e/a.txt", fs.os.O_EXCL | fs.os.O_CREAT | fs.os.O_RDWR, 436)
+        raise AssertionError("O_EXCL on existing file")
+    except OSError as ex:
+        assert ex.errno == errno.EEXIST
+    fd = fs.os.open("/vfs/d/e/b.txt", fs.os.O_EXCL | fs.os.O_CREAT | fs.os.O_RDWR, 436)
+    b = fs.os.fdopen(fd, "w+")
+    b.write("x\n")
+    b.flush()
+    fs.os.fsync(b.fileno())
+    assert fs.snapshot()["files"]["/vfs/d/e/b.txt"][1:] == ("x\n", ())
+    b.close()
+    fs.os.remove("/vfs/d/e/b.txt")
     assert len(fs.snaps) == 1 + sum(1 for j in fs.journal if j[0] != "mark")
     assert cuts(["ab", "c"], "one") == ["", "a", "ab", "abc"]
     assert cuts(["ab", "c"], "none") == ["", "ab", "abc"]
